@@ -67,7 +67,7 @@ PROPERTIES = {
         "explanation": "R-ARGS, R-GLOBAL, R-MEMO, R-TOKEN",
     },
     "C19": {
-        "rules": [rule_raise, rule_defassign, rule_regkey, rule_kwsig, rule_assert, rule_cover, CD.rule_codewidth, rule_loopstore, MB.rule_names, MB.rule_attr, MB.rule_dictkeys, rule_uniquefrom, rule_emptyidx, rule_fillnone, rule_aligned, rule_autorefuse, rule_axisrange, PR.rule_pairs_broadcast],
+        "rules": [rule_raise, rule_defassign, rule_regkey, rule_kwsig, rule_assert, rule_cover, CD.rule_codewidth, rule_loopstore, MB.rule_names, MB.rule_attr, MB.rule_dictkeys, rule_uniquefrom, rule_emptyidx, rule_fillnone, rule_aligned, rule_autorefuse, rule_axisrange, PR.rule_pairs_broadcast, PR.rule_pairs_broadcast_nax],
         "thorough": [selftest, seeded_regression],
         "technique": "CFG definite-assignment with guard correlation; call-graph reachability of raises; keyword/signature agreement of "
                      "every resolved call and partial; assert triage table",
@@ -106,7 +106,7 @@ PROPERTIES = {
         "explanation": "R-SENTINEL on _ravel_factorized; R-PAIRS[groupers]; R-CODEWIDTH: every code array is an intp producer so code arithmetic cannot wrap; R-IDENTITYCODES",
     },
     "C08": {
-        "rules": [M.rule_sentinel_offset, M.rule_copermute, PR.rule_pairs_collapse, PR.rule_pairs_outinds, CD.rule_codewidth, PR.rule_layout, rule_axisrange, PR.rule_pairs_broadcast],
+        "rules": [M.rule_sentinel_offset, M.rule_copermute, PR.rule_pairs_collapse, PR.rule_pairs_outinds, CD.rule_codewidth, PR.rule_layout, rule_axisrange, PR.rule_pairs_broadcast, PR.rule_pairs_broadcast_nax],
         "thorough": [selftest, seeded_regression],
         "technique": "CFG must-pass-through of a masked sentinel restore; permutation agreement of labels and values",
         "level_text": "Static, all-paths: after per-slice offsetting of codes, every path to return restores the missing-label code under a "
